@@ -146,7 +146,8 @@ class C41(Prop):
         'set -euo pipefail of the real job script (unset references abort there; here they expand to nothing)',
     ]
     rule = ('sections of 1-4 variables; values rendered from structure: literal text over letters/digits, blanks, # = : / * ? [ ] ! { } % ^ , . - + @, '
-            'quotes, unicode (incl. non-ASCII whitespace), shell metacharacters, newlines; the three tilde shapes with existing and unknown logins; '
+            'quotes, unicode (incl. non-ASCII whitespace), shell metacharacters, newlines; the three tilde shapes with existing and unknown logins, ~+ ~- ~0; '
+            'literal text starting with ~ (blanks and shell-active characters before the first /, several tildes); '
             '$NAME / ${NAME} references to earlier, later and outer variables; raw $ ` \\; plus the exhaustive box of all values of length <= 3 '
             'over a 10-character alphabet; distinct = distinct section, non-trivial = class (shapes, quote/ref/meta content, outcome)')
     workers = 16
@@ -183,7 +184,7 @@ class C41(Prop):
     def note(self):
         base = ('section_spec (full, all sections, any length): bash running the generated function body = the definitions applied in '
                 'configuration order, each value being its literal text with ${NAME} references replaced by the current value of NAME '
-                '(values: text free of $ ` \\, not a tilde form, and - for the unrepaired quoting - free of "); corollaries literal_preserved '
+                '(values: text free of $ ` \\, not a tilde form - literal text that merely starts with ~, such as "~5 km/h" (whitespace before the first /), counts as literal - and, for the unrepaired quoting, free of "); corollaries literal_preserved '
                 '(escaping quoting: every expansion-free value incl. double quotes arrives unchanged) and order. ')
         if self.esc:
             return base + 'The live code escapes double quotes: literal_preserved_live applies, the full statement holds.'
@@ -200,6 +201,7 @@ class C41(Prop):
             mk([('A', [lit("it's # not a comment")]), ('B', [lit('a=b:~/c')]), ('C', [lit('é☃　')])]),
             mk([('A', [lit('q"z')]), ('B', [lit('j"Q')])]),          # two odd quotes re-pair across lines
             mk([('A', [lit('~root/"q"')]), ('B', [lit('~nosuch')]), ('C', [lit('~root')])]),
+            mk([('A', [lit('~5 km/h')]), ('B', [lit('~ 3/4 of it')]), ('C', [lit('~a ~b')]), ('D', [lit('~q\tz/~/j')])]),   # literal text starting with ~
             mk([('A', [lit('q\n')]), ('B', [lit('~/q\n')]), ('C', [lit('~q\n')])]),
             mk([('A', [lit('one')]), ('B', [ref('A', True), lit('two'), ref('OUTER')]), ('A2', [ref('B'), lit(' '), ref('A2')])]),
             mk([('A', [lit('$\\\nq')]), ('B', [lit('$\\\n#')])]),     # $, backslash-newline: the continuation is removed before the $
@@ -233,8 +235,17 @@ class C41(Prop):
         kind = rng.choice(['plain', 'plain', 'quote', 'quote', 'uni', 'meta', 'wild'])
         if r < 0.45:
             return [lit(self.rand_text(rng, kind))]
+        if r < 0.52:      # literal text that merely starts with a tilde: blanks / shell-active characters before the first slash
+            pre = ''.join(rng.choice(rng.choice([PLAIN, PLAIN, [' ', ' ', '\t', '\n'], ['~', '#', '=', ':', '*', '+', '-', '.', "'"] + UNI,
+                                                 QUOTES if kind in ('quote', 'wild') else PLAIN, META if kind in ('meta', 'wild') else PLAIN]))
+                          for _ in range(rng.randint(1, 6)))
+            if not any(c in ' \t\n' for c in pre[:-1]):
+                k = rng.randrange(0, len(pre) + 1)
+                pre = pre[:k] + rng.choice([' ', ' ', '\t']) + pre[k:] + rng.choice(PLAIN)
+            tail = self.rand_text(rng, kind)
+            return [lit('~' + pre + rng.choice(['/' + tail, '/' + tail, '/', '', ' ~/' + tail, '/' + tail + '/~' + rng.choice(PLAIN)]))]
         if r < 0.62:      # tilde shapes
-            login = rng.choice(['', '', 'root', 'nosuch', rng.choice(LOGINS), 'q', '+', 'q"z'])
+            login = rng.choice(['', '', 'root', 'nosuch', rng.choice(LOGINS), 'q', '+', '-', '0', 'q"z', 'q z', 'q~', '~'])
             tail = self.rand_text(rng, kind)
             form = rng.random()
             if form < 0.5:
